@@ -154,7 +154,7 @@ def _run(V, work, tier):
     mutsets = list(itertools.product([False, True], repeat=3))
     combos = list(itertools.product(c01.BINDERS, repeat=3))
     for bs in (combos if thorough else rnd.sample(combos, 80)):
-        sessions.append(("scope", [P.src(static_refs(c01.scope_program(bs, rnd.choice(list(itertools.product(mutsets, repeat=3))))))], False, None))
+        sessions.append(("scope", [P.src(static_refs(c01.scope_program(bs, rnd.choice(list(itertools.product(mutsets, repeat=3))), selfref=rnd.random() < 0.6)))], False, None))
     for i in range(300 if thorough else 50):
         lib, user, feats = multi_package(rnd)
         if rnd.random() < 0.5:
